@@ -361,6 +361,7 @@ static Plan make_plan(const std::string& prop, uint64_t root, uint64_t idx, bool
     if (!ce.ref.empty() && g.below(3) == 0) { p.ref = g.below(5) == 0 ? ce.wasm : ce.ref; p.changed = ce.changed; }
     if (prop == "C20" ? g.below(2) == 0 : g.below(5) == 0) p.args.push_back({"-c"});
     p.shape = (int)g.below(8);
+    if (prop != "C20" && p.shape == 5) p.shape = 7;   // an output named like an implementation file collides with it: only meaningful for C20
     p.input_in_outdir = g.below(5) == 0;
     // decoys
     int nd = prop == "C20" ? 4 + (int)g.below(10) : (int)g.below(4);
